@@ -1,7 +1,7 @@
 """C15 - chemical and glycan formulas survive a write/parse round trip and add linearly."""
 import os
 
-from vf.ref import atoms, chem, obo
+from vf.ref import nist, atoms, chem, obo
 from vf.ref import glycan as rg
 
 DECIDING = ['peptacular.chem.chem_util.parse_chem_formula', 'peptacular.chem.chem_util.write_chem_formula',
@@ -9,7 +9,7 @@ DECIDING = ['peptacular.chem.chem_util.parse_chem_formula', 'peptacular.chem.che
 RULE = ('compositions over every element of the bundled table, isotope-prefixed elements, D/T and the particles e/p/n '
         'with integer counts in [-200,500] or decimals with up to 4 places; separators "", " ", "|"; hill_order both; '
         'multisets of the 27 monosaccharides (names and synonyms) with counts in [-5,20]; 30% of the compositions are followed at once by two siblings that differ in one small count (-1/-2, 1/2, 1/1.0 ...). Post-conditions: '
-        'parse(write(c)) == c minus zeros, chem_mass(text) == chem_mass(c), parse(a+b) == parse(a)+parse(b), bracketed '
+        'parse(write(c)) == c minus zeros, chem_mass(text) == chem_mass(c) == sum over an independent reading of the NIST table (all 84 elements with natural abundances, both modes), parse(a+b) == parse(a)+parse(b), bracketed '
         'isotopes stay distinct, an unambiguously written glycan (exhaustive segmentation has exactly one reading) parses '
         'to its counts, glycan_comp/glycan_mass equal count-weighted sums over the independently read monosaccharide '
         'table, name and synonym agree; 2% of the cases are glycan texts whose only reading is not the longest-name-first one (Neu5Acetyl...), with repeated names. signature = (clause, separator, hill order, key kinds, count kinds); '
@@ -170,6 +170,13 @@ def chem_clauses(ctx, st, pt, rng, elements, isotopes, fixed=None):
             ctx.violation('mass-of-text-differs-from-mass-of-composition', {'composition': comp, 'text': text,
                                                                             'monoisotopic': mono, 'text_mass': a,
                                                                             'composition_mass': b})
+        # and both equal the sum over an independent reading of the NIST table (every element, both modes)
+        ref = nist.comp_mass(nz, mono)
+        if ref is not None and b and b[0] == 'ok':
+            ctx.decided()
+            if abs(b[1] - ref) > 1e-9 * max(1.0, abs(ref)) + 1e-7:
+                ctx.violation('mass-of-composition-differs-from-table-sum', {'composition': comp, 'monoisotopic': mono,
+                                                                             'observed': b[1], 'table_sum': ref})
     ctx.sig(('round-trip', sep, hill, sorted(kinds), any(isinstance(v, float) for v in comp.values()),
              any(v < 0 for v in comp.values()), any(v == 0 for v in comp.values())), len(nz) >= 2)
     if sep == '':
